@@ -6,8 +6,11 @@
    can produce, they never depend on which one occurred.
 
    [check_case]: the trace is a behaviour of the model (Model/Executor.v): f of task j begins only after
-   every task in the model's dependency set [sdeps] of j ended successfully (theorem C08_deps_respected
-   says every run of the LTS has this shape), at most [workers] tasks are open at once, a single worker
+   every task in the model's dependency set [sdeps] of j ended successfully ([sdeps] is computed by running the
+   model's own registration labels on the task list, so this compares the Go executor's observed waiting with
+   the LTS's bookkeeping; the proved theorems C08_order / C08_order_code are about the conflict relations, of
+   which [sdeps] is a superset -- that every LTS run respects [sdeps] itself is not a proved theorem, it is part
+   of the correspondence), at most [workers] tasks are open at once, a single worker
    never starts f after a failure, nothing starts once the sticky error is known to be set, Wait returns
    the sticky error.
    [spec_ok]: the property text evaluated on the trace with its own notion of conflict (shared key, one
